@@ -165,9 +165,9 @@ def coq_closure(rel_files):
             continue
         seen.append(f)
         txt = strip_coq_comments(open(os.path.join(COQ, f), encoding='utf-8', errors='replace').read())
-        for m in re.finditer(r'(?:From\s+Sccache\s+)?Require\s+(?:Import\s+|Export\s+)?([^.]*?(?:\.[A-Za-z_][A-Za-z_0-9\']*)*)\s*\.(?=\s|$)', txt):
-            frm = m.group(0).lstrip().startswith('From')
-            for mod in m.group(1).split():
+        for m in re.finditer(r'(From\s+Sccache\s+)?Require\s+(?:Import\s+|Export\s+)?(.*?)\.(?=\s|$)', txt, re.S):
+            frm = bool(m.group(1))
+            for mod in m.group(2).split():
                 if mod.startswith('Sccache.'):
                     mod = mod[len('Sccache.'):]
                 elif not frm:
